@@ -7,7 +7,7 @@ from typing import Dict, List, Optional, Tuple
 
 from asl.cfg import CFG, Node, cfg_of
 from asl.flow import reachable
-from asl.loader import AnalysisError, Unit, norm
+from asl.loader import AnalysisError, Unit, norm, own_nodes
 
 CLASSES = {
     "uncached": "_lrucache.UncachedLRUAsyncCallable",
@@ -25,6 +25,17 @@ class LruClass:
         self.kind = kind
         self.short = CLASSES[kind]
         self.info = ctx.pkg.cls(self.short)
+        # methods inherited from a *private* base class of the module (shared bookkeeping of the storing wrappers) count as
+        # the class's own
+        inherited = {}
+        for base in reversed(ctx.vals.mro(self.info.fq)[1:]):
+            if base.node.name.startswith("_"):
+                inherited.update(base.methods)
+        if inherited:
+            import copy as _copy
+            merged = _copy.copy(self.info)
+            merged.methods = {**inherited, **self.info.methods}
+            self.info = merged
         for m in ("__call__", "cache_info", "cache_clear", "cache_discard", "cache_parameters", "__init__"):
             if m not in self.info.methods:
                 raise AnalysisError(f"{self.short} has no method {m} (anchor moved)")
@@ -65,6 +76,38 @@ class LruClass:
         size = args.get("currsize")
         if isinstance(size, ast.Call) and norm(size.func) == "len" and size.args:
             self.cache = self_attr(size.args[0])
+
+    def field_inits(self) -> Dict[str, ast.AST]:
+        """{field: the expression the constructor puts into it, in terms of the class's own ``__init__``} - an assignment in
+        ``__init__`` itself, or one in the ``__init__`` of a private base class reached through ``super().__init__(..)`` with
+        the base's parameters replaced by the arguments passed"""
+        out: Dict[str, ast.AST] = {}
+        own = self.ctx.pkg.cls(self.short)
+        mro = [c for c in self.ctx.vals.mro(own.fq)]
+
+        def collect(info_idx: int, subst: Dict[str, ast.AST]) -> None:
+            if info_idx >= len(mro) or "__init__" not in mro[info_idx].methods:
+                if info_idx + 1 < len(mro):
+                    collect(info_idx + 1, subst)
+                return
+            init = mro[info_idx].methods["__init__"]
+            for n in own_nodes(init.node):
+                tgt = n.targets[0] if isinstance(n, ast.Assign) and len(n.targets) == 1 else n.target if isinstance(n, ast.AnnAssign) else None
+                val = getattr(n, "value", None)
+                if isinstance(tgt, ast.Attribute) and isinstance(tgt.value, ast.Name) and tgt.value.id == "self" and val is not None:
+                    if isinstance(val, ast.Name) and val.id in subst:
+                        val = subst[val.id]
+                    out.setdefault(tgt.attr, val)
+                if isinstance(n, ast.Call) and isinstance(n.func, ast.Attribute) and n.func.attr == "__init__" \
+                        and isinstance(n.func.value, ast.Call) and norm(n.func.value.func) == "super" and not n.keywords \
+                        and info_idx + 1 < len(mro) and mro[info_idx + 1].node.name.startswith("_"):
+                    base_init = mro[info_idx + 1].methods.get("__init__")
+                    if base_init is not None:
+                        names = base_init.param_names()[1:]
+                        inner = {p: (subst.get(a.id, a) if isinstance(a, ast.Name) else a) for p, a in zip(names, n.args)}
+                        collect(info_idx + 1, inner)
+        collect(0, {})
+        return out
 
     def cacheinfo_fields(self) -> List[str]:
         info = self.ctx.pkg.cls("_lrucache.CacheInfo")
